@@ -14,6 +14,7 @@ structure DS where
   vE : Nat := 100000000    -- CR VotingPeriod
   vM : Nat := 12           -- CR MemberCount
   lastVS : Nat := 0        -- Committee.LastVotingStartHeight
+  renewed : List String := []  -- refer keys renewed in the open block
 
 def insSorted {α : Type} (x : Nat × α) : List (Nat × α) → List (Nat × α)
   | [] => [x]
@@ -54,6 +55,7 @@ def parseTx : List String → Option Tx
       let b ← if bad == "n" then some none else (nat? bad).map some
       pure (.vote (← nat? k) (← nat? lock) (← ints? vs) b)
   | ["retv", k, v] => do pure (.retv (← nat? k) (← int? v))
+  | ["retv", k, v, _, _] => do pure (.retv (← nat? k) (← int? v))   -- payload version / other key do not matter
   | ["renew", k, _, oldLock, amount, born, newLock] => do
       pure (.renew (← nat? k) (← nat? oldLock) (← int? amount) (← nat? newLock) (← nat? born))
   | _ => none
@@ -64,6 +66,14 @@ def parseCR : List String → Option CRTx
   | ["crcancel", o] => do pure (.cancel (← nat? o))
   | ["crvote", o, v] => do pure (.vote (← nat? o) (← int? v))
   | ["crret", o, inp, tinp, change, out, _] => do pure (.ret (← nat? o) (← int? inp) (← int? tinp) (← int? change) (← int? out))
+  | _ => none
+
+/-- `ret` with a further output to another producer's deposit address: that output is not change (it counts as
+    withdrawn in the check) and is a deposit to the other producer in the bookkeeping. -/
+def parseRet2 : List String → Option (Tx × Tx)
+  | ["ret", o, inp, tinp, change, out, _, o2, other] => do
+      let ov ← int? other
+      pure (.ret (← nat? o) (← int? inp) (← int? tinp) (← int? change) ((← int? out) + ov), .dep (← nat? o2) ov)
   | _ => none
 
 def isEnv : Tx → Bool
@@ -82,7 +92,7 @@ def stepC28 (d : DS) (toks : List String) : DS × String :=
     | _, _, _, _, _, _, _, _ => (d, "bad-op")
   | ["reset"] => ({}, "ok")
   | ["begin", h] => match nat? h with
-    | some h => ({ d with h := h, q := [], cq := [] }, "ok")
+    | some h => ({ d with h := h, q := [], cq := [], renewed := [] }, "ok")
     | none => (d, "bad-op")
   | ["end"] =>
     let s' := applyTxs d.P d.h d.s d.q.reverse
@@ -90,6 +100,17 @@ def stepC28 (d : DS) (toks : List String) : DS × String :=
     let (crs2, vs) := ElaVerif.CRDeposit.election d.P d.vE d.vM d.h d.lastVS crs1
     let d' := { d with s := s', q := [], crs := crs2, lastVS := vs, cq := [] }
     (d', dump d')
+  | ["renew", k, key, oldLock, amount, born, newLock] =>
+    match nat? k, nat? oldLock, int? amount, nat? newLock, nat? born with
+    | some k, some ol, some am, some nl, some bo =>
+      match check d.P d.h d.s (.renew k ol am nl bo) with
+      | some e => (d, "reject " ++ e)
+      | none =>
+        -- a second renewal of the SAME detailed vote (same refer key) in one block finds nothing left to delete
+        -- and only stores another renewed vote: queue it with an old lock time that matches no live vote
+        if key ∈ d.renewed then ({ d with q := .renew k 0 am nl bo :: d.q }, "accept")
+        else ({ d with q := .renew k ol am nl bo :: d.q, renewed := key :: d.renewed }, "accept")
+    | _, _, _, _, _ => (d, "bad-op")
   | _ =>
     match parseCR toks with
     | some ctx =>
@@ -97,6 +118,12 @@ def stepC28 (d : DS) (toks : List String) : DS × String :=
        | some e => (d, "reject " ++ e)
        | none => ({ d with cq := ctx :: d.cq },
            match ctx with | .reg .. | .dep .. | .vote .. => "queued" | _ => "accept"))
+    | none =>
+    match parseRet2 toks with
+    | some (r, dp) =>
+      (match check d.P d.h d.s r with
+       | some e => (d, "reject " ++ e)
+       | none => ({ d with q := dp :: r :: d.q }, "accept"))
     | none =>
     match parseTx toks with
     | none => (d, "bad-op")
